@@ -20,6 +20,8 @@ DECIDED = ('(a) exception-escape analysis from the body accessors (body, _body, 
            'loop (C18.a), the chunk-size scan is capped by the buffer size, the delimiter search advances its window start '
            'on every path round its loop; (e) urlencoded / JSON bodies above the in-memory threshold are refused, also when '
            'the length is unknown (chunked).')
+DECIDED_MORE = ('Also: may-raise sources for a method call on an optional regex group and dict.update of an unchecked JSON value.')
+DECIDED = DECIDED + ' ' + DECIDED_MORE
 NOT_DECIDED = ('regex matching time; completeness of the may-raise catalogue (a stated assumption: ' +
                '; '.join(f'{a} -> {b}' for a, b in CATALOGUE_DOC) + '); a non-numeric CONTENT_LENGTH (server-validated '
                'framing metadata, not body bytes).')
